@@ -3,6 +3,9 @@
 From Coq Require Import String List Bool.
 From PM Require Import Semiring Poly Poly_sem Rel Calculus Rel_sem Sem_stmts.
 From PM Require Rel_hom Rel_ops_closed Rel_fix_closed Rel_persist.
+From PM Require Import Analysis An_stmts.
+From PM Require An_extra.
+From PM Require Rel Rel_sem Rel_term.
 Import ListNotations.
 
 (* variable-list unification: both operands keep their meaning (identity on missing variables),
@@ -65,6 +68,56 @@ Theorem C10_infinity_persists_in_composition_refuted :
     clean (rel_comp a b) c.
 Proof. exact Rel_persist.infinity_persists_comp_refuted. Qed.
 
+(* "analysing a statement sequence equals composing the analyses of any split of it".
+   Calculus level: the derivation of l1 ++ l2 is the derivation of l2 continued from the matrix and the
+   site index where l1 stopped (any variable list, choice vector, accumulator, index) ... *)
+Theorem C10_split_append : forall V l1 l2 cs acc idx,
+  derive_list V (l1 ++ l2) cs acc idx =
+  derive_list V l2 cs (fst (derive_list V l1 cs acc idx)) (snd (derive_list V l1 cs acc idx)).
+Proof. exact An_extra_split.derive_list_app. Qed.
+
+(* ... and, each part started from the identity (l2 at the index where l1 ended), the matrix of l1 ++ l2
+   is on V x V the product of the matrix of l1 and the matrix of l2; it fails iff one of them fails *)
+Theorem C10_split_derivation : forall V l1 l2 cs idx,
+  let d1 := derive_list V l1 cs (Some sid) idx in
+  let d2 := derive_list V l2 cs (Some sid) (snd d1) in
+  let d := derive_list V (l1 ++ l2) cs (Some sid) idx in
+  snd d = snd d2 /\
+  (fst d = None <-> fst d1 = None \/ fst d2 = None) /\
+  (forall A1 A2, fst d1 = Some A1 -> fst d2 = Some A2 ->
+     exists A, fst d = Some A /\ eqV V A (smul V A1 A2)).
+Proof. exact An_extra_split.derive_list_split. Qed.
+
+(* Analysis level: a function whose body is l1 ++ l2 (ANY split), reported not infinite.  A choice vector
+   is accepted iff both parts have derivations (l1 on the sites 0 .. k1-1, l2 on the sites k1 .. k-1), and
+   there the reported matrix is the product of the two parts' matrices *)
+Theorem C10_split : forall f stop res l1 l2, func_ok f -> f_body f = l1 ++ l2 ->
+    analyse f stop = ROk res -> fr_infinite res = false ->
+    exists r, fr_rel res = Some r /\ rvars r = func_vars f /\
+    forall cs, vec_ok (fr_index res) cs ->
+      let V := func_vars f in
+      let d1 := derive_list V l1 cs (Some sid) 0 in
+      let d2 := derive_list V l2 cs (Some sid) (snd d1) in
+      snd d2 = fr_index res /\
+      (accepted (fr_inf_deltas res) cs = true <->
+         (exists A1, fst d1 = Some A1) /\ (exists A2, fst d2 = Some A2)) /\
+      (forall A1 A2, fst d1 = Some A1 -> fst d2 = Some A2 ->
+         apply_choice r (choice_of_list cs) = smat_table V (smul V A1 A2)).
+Proof. exact An_extra.split_analysis. Qed.
+
+(* Relation.fixpoint TERMINATES: the iteration "sum of powers until syntactically stable" stops for every
+   well-formed relation (the down-closure, under the domination order, of each cell grows strictly at every
+   non-final round inside a finite universe of monomials), and its result does not depend on the fuel once
+   it is large enough; in particular for the two relations the analysis closes loops on. *)
+Theorem C10_fixpoint_terminates : forall r, Rel_sem.wf_rel r -> Rel_sem.rel_pwf r ->
+  exists fuel f, forall fuel', fuel <= fuel' -> Rel.rel_fixpoint fuel' r = Some f.
+Proof. exact Rel_term.rel_fixpoint_terminates_stable. Qed.
+
+Theorem C10_loop_closures_terminate : forall body x, Rel_sem.wf_rel body -> Rel_sem.rel_pwf body ->
+  (exists fuel f, Rel.rel_fixpoint fuel (Rel.rel_comp Rel.rel_empty body) = Some f) /\
+  (exists fuel f, Rel.rel_fixpoint fuel (Rel.rel_comp (Rel.rel_zero [x]) body) = Some f).
+Proof. exact Rel_term.rel_fixpoint_total_for_analysis. Qed.
+
 Print Assumptions C10_homogenisation.
 Print Assumptions C10_infinity_persists_in_sum.
 Print Assumptions C10_infinity_persists_in_composition_refuted.
@@ -72,3 +125,8 @@ Print Assumptions C10_sum.
 Print Assumptions C10_composition_exact.
 Print Assumptions C10_composition_is_matrix_product.
 Print Assumptions C10_fixpoint_is_closure.
+Print Assumptions C10_split_append.
+Print Assumptions C10_split_derivation.
+Print Assumptions C10_split.
+Print Assumptions C10_fixpoint_terminates.
+Print Assumptions C10_loop_closures_terminate.
